@@ -1607,6 +1607,24 @@ class MEDDLY::forest {
         /// Mark all registered dd_edges.
         void markAllRoots();
 
+#ifdef MEDDLY_VERIF
+    // ------------------------------------------------------------
+    public: // Verification hooks: read-only accessors
+    // ------------------------------------------------------------
+        /// First registered root edge (or null)
+        inline const dd_edge* verif_firstRoot() const {
+            return roots;
+        }
+        /// Next registered root edge after e (or null)
+        static inline const dd_edge* verif_nextRoot(const dd_edge* e) {
+            return e->next;
+        }
+        /// Cache count stored for node p
+        inline unsigned long verif_cacheCount(node_handle p) const {
+            return nodeHeaders.getNodeCacheCount(p);
+        }
+#endif
+
     // ------------------------------------------------------------
     private: // Private methods for root edge registry
     // ------------------------------------------------------------
